@@ -152,6 +152,28 @@ Checks that were strengthened because a seeded change (or the triage of one) sho
   and DELETE; **C04-10** (a stale index clears another transaction's list slot) made the library crash on C04's own histories,
   and the check stopped as *inconclusive* (too few cases judged) because crashes were booked to C01 only - a crash on a case of
   a check's own workload is now also a violation of that check's property (nothing was reported for that case at all).
+* **Round 11** (19 more; 6 not caught at first, and C04-1 - "missed" since repair `2b8feff` had narrowed it to early answers - is
+  caught again): **C01-11** (a pending request header freed but not forgotten when the header-count limit refuses it) - the harness
+  had no slot for `htp_config_set_number_headers_limit` (nor for `..._requestline_leading_whitespace_unwanted`); both are now
+  configuration slots the mutator varies, with seeds that reach the limit on a field whose line ends its piece or is folded
+  (headers and trailers, both directions); **C04-11** (the resumed end of a response skips `htp_tx_finalize`, so a refused CONNECT
+  whose request finished first is never reported) - C04 had no CONNECT at all ("belongs to C16"), although the statement names the
+  hand-over: a sixteenth of its histories now carry a refused CONNECT as one of the N exchanges, and "reported" is taken at the
+  callback (TRANSACTION_COMPLETE ran exactly once; at least once for the CONNECT, whose double report is KF-C05); C16 requires
+  the same of every complete exchange after a refused CONNECT (the unchanged tree fails that only when the CONNECT transaction is
+  destroyed while still attached - attributed to KF-C16-early-data-other-destroyed); **C04-1** - an eighth of C04's histories
+  let a response start once the head and first body byte of its request are out, and C06's early-answer slice uploads chunked
+  bodies as well; **C07-11** (no decompression for status 206) - statuses 200/201/203/206/226/299/403/404/500, request methods and
+  HTTP/1.0 answers; **C08-11** (a counting pass over the transaction list at every creation once the list is longer than
+  `max_tx`) - exchange families with a small `max_tx`, parser-disposed transactions and unrecycled slots (every exchange family
+  had run with `max_tx` = 10^7); **C09-11** (`htp_connp_close` puts a failed response direction back into CLOSED when the request
+  direction is healthy) was noticed only through the leaks it causes: the close calls are now monitored too - no parsing callback
+  for a direction that had reported ERROR, and the direction still in ERROR afterwards (callbacks run at close for a direction that
+  had reported STOP are counted, not judged: the unchanged close functions resume such a direction, and the statement speaks
+  about data calls); LeakSanitizer keys no longer contain the leak size; **C11-11** (request header processed at the end of its
+  piece, the continuation line arriving next is lost) - trigger fields whose value starts on a continuation line (obs-fold), with
+  every single cut; **C16-11** (101 only honoured when `Connection` is exactly `Upgrade`) - the Connection/Upgrade spellings
+  clients really send (`keep-alive, Upgrade`, `Upgrade, HTTP2-Settings`, letter case, order, none at all).
 * **C08-1/2, C19-1/2** were the acceptance tests of the two checks built last; C19-1 (a process-wide decompression buffer) is
   invisible to ThreadSanitizer because zlib does the writes, and is caught by the solo-vs-shared dump comparison under baton
   interleavings; C19-2 (self-organising best-fit map) is caught by the deep configuration hash and by TSan.
